@@ -6,7 +6,8 @@ from `numpy.random.default_rng` seeded with Hypothesis-drawn integers (DESIGN 1.
 for purity checks the actual coordinates do not matter, the entry points / parameters / order of calls do.
 
 Valid-input domain of the ORDINARY worlds (variant "plain"; by construction, cf. DESIGN 1.4 / 3):
-  * type ids exactly 1..K (K 1..5), all present, identical in every frame; same N and box in every frame
+  * type ids exactly 1..K (K 1..6; six species: more than gr / sq have partial columns for, 'only overall' branch), all
+    present, identical in every frame; same N and box in every frame
   * no coincident particles (jittered sub-lattice, min distance >= 0.4 lattice spacing in frame 0)
   * box edges / origins are multiples of 1/8, so "centred" and "sumzero" boxes have bounds summing to exactly 0.0
   * synthetic neighbour / weight files in the library format (`id cn neighborlist`, 1-based ids), every particle has
@@ -20,7 +21,11 @@ Unusual-but-accepted worlds (VARIANTS other than "plain"; "off-domain": purity i
   perm-types  the type array is permuted from frame to frame (swap Monte Carlo), composition fixed
   int32-types particle_type is int32 instead of the readers' int64
   noncontig   positions are non-contiguous views (every second column of a wider array) instead of C-contiguous arrays
-  logtimes    three frames at t0, t0+s, t0+3s (logarithmic dumps: the non-linear branch of the time correlations)
+  logtimes    frames at t0, t0+s, t0+3s, t0+7s, ... (logarithmic dumps: the non-linear branch of the time correlations)
+  mixed-ppp   periodic along some axes only (ppp with at least one 0 and one 1: slab / wire geometries)
+  dup-times   one time step occurs twice in a row (a restart writes its first frame again)
+  back-times  the time step goes back once (runs concatenated after reset_timestep): the frames are NOT in time order
+  sheared     (triclinic cells) the tilt xy grows from frame to frame, box lengths fixed: every frame has its own cell matrix
 Degenerate worlds (DEGENERATE; the library legitimately RETURNS NaN / inf there, so repeat-equality and the file round trips
 are exercised on non-finite values; an exception is a refusal as in the other unusual worlds):
   pinned      a subset of the particles (one of every species, >= 2) has bit-identical coordinates in all frames of the
@@ -28,12 +33,18 @@ are exercised on non-finite values; an exception is a refusal as in the other un
   revisit     a later frame is an exact copy of frame 0 ([f0,f0] / [f0,f1,f0] / [f0,f0,f1]): msd == 0 at some lag for ALL
               particles (log-style displacement from frame 0, and the lag-2 entry of the linear average)
   zerofield   (S2 smoothing widths 0.15 x the usual: g_i(r) == 0 in some bins, S2 = NaN;) the real scalar field is identically zero, the complex / vector / tensor fields are zero in frame 0 and for
-              particle 0, time steps are logarithmic for 3 frames: normalisations hit 0/0 and x/0
+              particle 0, time steps are logarithmic for 3 frames, particle 1 has NO neighbour in the synthetic lists
+              (cn = 0: means over nothing): normalisations hit 0/0 and x/0
 Every world carries the condition masks mask_pin (the pinned set, all frames), mask_mob (its complement) and mask_gap (the
 ordinary mask with NO particle selected in one origin frame); in the non-degenerate worlds the "pinned set" moves like
 all other particles and entries do not pass mask_gap.
 In the label variants the per-species parameter tables have one row per LAMMPS type up to the largest label (KP rows),
 which is what a user analysing a dump of a sub-set of species passes; dict arguments have every label as a key.
+Sizes: T = 1 ... 8 frames (T = 1: a single configuration), any N >= 8.  Argument order: the dict arguments (masses,
+diameters, radii) are inserted in ascending key order in one world in three only (else reversed / rotated), the column list
+of the vector reader is descending in every second world -- any order is valid input and an in-place sort() is invisible on
+sorted input; dicts and lists are compared INCLUDING their order.  `mask_int` is the ordinary selection as an integer
+property (0 / 1..3) for routines that cast a condition with astype(bool).
 """
 from __future__ import annotations
 
@@ -48,7 +59,7 @@ from ..harness import Violation
 
 ORIGINS = ("zero", "centred", "sumzero", "arbitrary")
 VARIANTS = ("plain", "lab-gap", "lab-shift", "lab-zero", "perm-types", "int32-types", "noncontig", "logtimes",
-            "pinned", "revisit", "zerofield")
+            "mixed-ppp", "dup-times", "back-times", "sheared", "pinned", "revisit", "zerofield")
 DEGENERATE = ("pinned", "revisit", "zerofield")  # valid physics whose results legitimately contain NaN / inf
 
 
@@ -368,20 +379,36 @@ class World:
             for k in range(1, T):
                 xu[k][self.pin] = xu[0][self.pin]
         if variant == "revisit":
-            pattern = {2: [[0, 0]], 3: [[0, 1, 0], [0, 0, 1]]}[T]
-            pattern = pattern[int(seed) % len(pattern)]
+            if T <= 3:
+                pattern = {1: [[0]], 2: [[0, 0]], 3: [[0, 1, 0], [0, 0, 1]]}[T]
+                pattern = pattern[int(seed) % len(pattern)]
+            else:  # frame j (1 <= j < T) is an exact copy of frame 0
+                pattern = list(range(T))
+                pattern[1 + int(seed) % (T - 1)] = 0
             xu = [xu[i].copy() for i in pattern]
+        # per-frame cell matrix: the same in all frames unless the trajectory is sheared (tilt grows by L_x / 8 per frame)
+        Hs = [H.copy() for _ in range(T)]
+        if variant == "sheared" and cell == "tri":
+            for k in range(T):
+                Hs[k][1, 0] += 0.125 * k * L[0]
         xw = []
-        Hinv = np.linalg.inv(H)
-        for p in xu:
-            f = (p - lo) @ Hinv
-            xw.append(lo + (f - np.floor(f)) @ H)
+        for p, Hk in zip(xu, Hs):
+            f = (p - lo) @ np.linalg.inv(Hk)
+            xw.append(lo + (f - np.floor(f)) @ Hk)
         types = np.array(self.labels, dtype=int)[types - 1]  # canonical 1..K -> the labels of this world
         t0 = int(rng.integers(0, 5000))
         self.step = int(rng.choice([50, 100, 1000]))
         if like is not None:
-            t0, self.step = like.timesteps[0], like.step
-        mult = [0, 1, 3, 7] if variant in ("logtimes", "zerofield") else list(range(T))
+            t0, self.step = like.t0, like.step
+        self.t0 = t0
+        tseed = int(like.kw["seed"]) if like is not None else int(seed)  # time steps are plain ints: taken over from `like`
+        mult = [0, 1, 3, 7, 15, 31, 63, 127] if variant in ("logtimes", "zerofield") else list(range(T))
+        if variant == "dup-times":  # the same time step twice (a restart writes its first frame again)
+            j = tseed % max(1, T - 1)
+            mult = list(range(j + 1)) + list(range(j, T - 1))
+        if variant == "back-times":  # the time step goes back (runs concatenated after reset_timestep): frames NOT in time order
+            j = 1 + tseed % max(1, T - 1)
+            mult = (list(range(T)) * 2)[j:j + T]
         self.timesteps = [t0 + mult[k] * self.step for k in range(T)]
         self.dt = 0.002
         # per-frame type arrays: identical unless the variant permutes them (composition fixed)
@@ -394,8 +421,8 @@ class World:
 
         def mk(frames):
             sn = []
-            for p, ts, ty in zip(frames, self.timesteps, frame_types):
-                one = snapshot_from(cellrec, p, ty, ts)
+            for p, ts, ty, Hk in zip(frames, self.timesteps, frame_types, Hs):
+                one = snapshot_from(dict(cellrec, H=Hk), p, ty, ts)
                 if variant in ("int32-types", "noncontig"):
                     pos = one.positions
                     if variant == "noncontig":
@@ -418,6 +445,10 @@ class World:
         # ---- per-particle fields and parameter arrays (all passed to the library as they are, never as copies)
         A = {}
         A["ppp"] = np.ones(d, dtype=int)
+        if variant == "mixed-ppp":  # slab / wire geometries: periodic along some axes only (at least one of each kind)
+            A["ppp"][int(seed) % d] = 0
+            if d == 3 and (int(seed) // 3) % 2:
+                A["ppp"][(int(seed) + 1) % d] = 0
         A["ppp0"] = np.zeros(d, dtype=int)
         A["scalar"] = rng.normal(0.5, 1.0, size=(T, N))
         A["cplx"] = rng.normal(size=(T, N)) + 1j * rng.normal(size=(T, N))
@@ -433,6 +464,8 @@ class World:
         A["mask_gap"] = mask.copy()
         self.gapframe = int(seed) % max(1, T - 1)  # an ORIGIN frame of the displacement averages
         A["mask_gap"][self.gapframe] = False
+        # the same selection as an integer property (0 = not selected, 1..3 = selected): for routines that cast with astype(bool)
+        A["mask_int"] = mask.astype(np.int64) * (1 + np.arange(N) % 3)[None, :]
         if variant == "zerofield":
             A["scalar"][...] = 0.0
             for k in ("cplx", "vec", "tens"):
@@ -454,11 +487,19 @@ class World:
         if variant == "zerofield":
             A["s2sig"] *= 0.15  # narrow Gaussians: g_i(r) underflows to exactly 0 in some bins, S2 = 0 * log 0 = NaN
         diam = 0.9 + 0.2 * np.arange(KP)  # no table entry equal to 1.0: "normalise by the smallest" must not be the identity
-        self.diameters = {k + 1: float(diam[k]) for k in range(KP)}
-        self.masses = {k + 1: 0.8 + 0.5 * k for k in range(KP)}
-        self.radii = {k + 1: 0.4 + 0.1 * k for k in range(KP)}
-        if 0 in self.labels:
-            self.diameters[0], self.masses[0], self.radii[0] = 0.9, 0.8, 0.35
+        # insertion order of the dict arguments and order of the column list: any order is valid input; ascending in one
+        # world in three only (a sort()/sorted() side effect is invisible on sorted input).  A mutate-and-restore partner
+        # (`like`) takes the order over: these arguments are not arrays and keep their identity AND contents.
+        oseed = int(like.kw["seed"]) if like is not None else int(seed)
+        keys = list(range(1, KP + 1)) + ([0] if 0 in self.labels else [])
+        if oseed % 3 == 1:
+            keys = keys[::-1]
+        elif oseed % 3 == 2:
+            keys = keys[1:] + keys[:1]
+        self.key_order = "ascending" if keys == sorted(keys) else "unsorted"
+        self.diameters = {k: (float(diam[k - 1]) if k else 0.9) for k in keys}
+        self.masses = {k: (0.8 + 0.5 * (k - 1) if k else 0.8) for k in keys}
+        self.radii = {k: (0.4 + 0.1 * (k - 1) if k else 0.35) for k in keys}
         A["pcsig"] = (diam[:, None] + diam[None, :]) / 2.0
         e = rng.uniform(0.5, 1.5, size=(KP, KP))
         A["heps"] = (e + e.T) / 2.0
@@ -502,6 +543,8 @@ class World:
                 others = np.array([j for j in range(N) if j != i])
                 nei = rng.permutation(others)[:cn]
                 wts = rng.uniform(0.1, 2.0, size=cn)
+                if variant == "zerofield" and i == 1:  # an isolated particle: no neighbour at all (means over nothing)
+                    nei, wts, cn = nei[:0], wts[:0], 0
                 rows.append(nei)
                 nl.append(f"{i + 1} {cn} " + " ".join(str(int(j) + 1) for j in nei) + "\n")
                 wl.append(f"{i + 1} {cn} " + " ".join(f"{x:.6f}" for x in wts) + "\n")
@@ -542,6 +585,8 @@ class World:
         if K >= 3:
             self.moltypes[int(self.labels[0])] = 2
         self.columnsids = [d + 3 + a for a in range(d)]
+        if oseed % 2:
+            self.columnsids.reverse()  # (vy, vx) is as valid a request as (vx, vy)
         cnl = np.zeros((N, 5), dtype=np.int32)
         for i, nei in enumerate(nb_frames[0]):
             cnl[i, 0] = len(nei)
@@ -567,7 +612,8 @@ class World:
         self.pristine = self._freeze_all()
         self.pristine_files = {k: open(p, "rb").read() for k, p in self.files.items()}
         self.pristine_dicts = {"masses": dict(self.masses), "diameters": dict(self.diameters), "radii": dict(self.radii),
-                               "moltypes": dict(self.moltypes), "columnsids": list(self.columnsids)}
+                               "moltypes": dict(self.moltypes), "columnsids": list(self.columnsids),
+                               "dudrs": list(self.dudrs), "angles": list(self.angles)}
         # Dynamics.sq4 with a condition: the selected AND mobile subset must be non-empty in every origin frame as well
         self.sq4_ok_cond = []
         for cal in self.sq4_ok:
@@ -607,9 +653,11 @@ class World:
         self.radii = dict(self.radii)
         self.moltypes = dict(self.moltypes)
         self.columnsids = list(self.columnsids)
+        self.dudrs = list(self.dudrs)
+        self.angles = list(self.angles)
 
-    _SCALARS = ("pristine", "pristine_files", "L", "H", "lo", "Lmin", "sq4_ok", "sq4_ok_cond", "angles", "dudrs", "pin",
-                "gapframe")
+    _SCALARS = ("pristine", "pristine_files", "pristine_dicts", "L", "H", "lo", "Lmin", "sq4_ok", "sq4_ok_cond", "angles",
+                "dudrs", "pin", "gapframe")
 
     def mutate_to(self, other):
         """Overwrite the contents of every array object (and input file) of this world IN PLACE with those of `other`
@@ -642,6 +690,18 @@ class World:
         for k in self._SCALARS:
             setattr(self, k, saved[k])
         self._saved = None
+
+    def restore_changed(self):
+        """Write the pristine bytes back (in place) into every input array that no longer has them; returns their labels.
+        Only used after the HARNESS overwrote returned arrays in place (a returned array may alias an input)."""
+        changed = []
+        for label, a in self._reachable():
+            if isinstance(a, np.ndarray):
+                dt, shape, raw = self.pristine[label]
+                if a.dtype.str == dt and a.shape == shape and a.tobytes() != raw:
+                    a[...] = np.frombuffer(raw, dtype=np.dtype(dt)).reshape(shape)
+                    changed.append(label)
+        return changed
 
     # ------------------------------------------------------------------ invariant 1
     FIELDS = ("particle_type", "positions", "boxlength", "boxbounds", "realbounds", "hmatrix")
@@ -702,7 +762,8 @@ class World:
                 if f.read() != self.pristine_files[k]:
                     raise Violation(f"after {after}: input file {k} was modified")
         for name, want in self.pristine_dicts.items():
-            if getattr(self, name) != want or type(getattr(self, name)) is not type(want):
+            got = getattr(self, name)
+            if got != want or type(got) is not type(want) or (isinstance(want, dict) and list(got.items()) != list(want.items())):
                 raise Violation(f"after {after}: the {type(want).__name__} argument {name!r} was modified: {want!r:.80} -> "
                                 f"{getattr(self, name)!r:.80}")
 
